@@ -121,7 +121,8 @@ enum ItemD {
     Const { name: usize, tag: i64 },
     Ty { name: usize, tag: i64 },
     Imports(Vec<ImpTree>),
-    SigProbe { id: usize, path: Path, form: &'static str },
+    /// a reference at module level: signature / record-field type, constant initialiser
+    SigProbe { id: usize, kind: PKind, path: Path, form: &'static str },
 }
 
 #[derive(Clone, Debug)]
@@ -221,9 +222,10 @@ fn mod_tok(m: &ModD, keep: &dyn Fn(usize) -> bool, out: &mut Vec<String>) {
                     path_tok(p, out);
                 }
             }
-            ItemD::SigProbe { id, path, .. } => {
+            ItemD::SigProbe { id, kind, path, .. } => {
                 out.push("S".into());
                 out.push(id.to_string());
+                out.push(match kind { PKind::Fn => "0", PKind::Const => "1", PKind::Ty => "2" }.into());
                 path_tok(path, out);
             }
         }
@@ -408,10 +410,18 @@ fn render_module(p: &Program, mi: usize, keep: &dyn Fn(usize) -> bool, tags: &BT
                     out.push_str(&format!("import {};\n", t.render(names)));
                 }
             }
-            ItemD::SigProbe { id, path, .. } => {
+            ItemD::SigProbe { id, kind, path, .. } => {
                 if keep(*id) {
                     let t = tags.get(id).copied().unwrap_or(0);
-                    out.push_str(&format!("fn sp{id}(x: {}) -> i64 {{ x.t{t} }}\n", path_str(path, names)));
+                    let ps = path_str(path, names);
+                    match kind {
+                        // a type in a function signature / in a record field
+                        PKind::Ty if id % 2 == 0 => out.push_str(&format!("fn sp{id}(x: {ps}) -> i64 {{ x.t{t} }}\n")),
+                        PKind::Ty => out.push_str(&format!("record rp{id} {{ x: {ps} }}\nfn sp{id}(x: rp{id}) -> i64 {{ x.x.t{t} }}\n")),
+                        // a value / a call in a constant's initialiser
+                        PKind::Const => out.push_str(&format!("const cp{id}: i64 = {ps};\nfn sp{id}() -> i64 {{ cp{id} }}\n")),
+                        PKind::Fn => out.push_str(&format!("const cp{id}: i64 = {ps}();\nfn sp{id}() -> i64 {{ cp{id} }}\n")),
+                    }
                 }
             }
         }
@@ -543,14 +553,12 @@ fn compile_and_observe(tree: FileTree, rt: &Runtime<NoCtx>, ask: &Ask, want_scop
         let mut pkg = checked.lower_to_mir().lower_to_lir().codegen();
         let mut probes = BTreeMap::new();
         for (id, path) in &ask.calls {
-            match pkg.get_function::<fn(i64) -> i64>(path) {
-                Ok(f) => {
-                    probes.insert(*id, Out::Ok(f.call(*id as i64)));
-                }
-                Err(_) => {
-                    probes.insert(*id, Out::Err("get_function".into()));
-                }
-            }
+            // `!path` = a getter without selector (module-level value reference)
+            let r = match path.strip_prefix('!') {
+                Some(getter) => pkg.get_function::<fn() -> i64>(getter).map(|f| f.call()).map_err(|_| ()),
+                None => pkg.get_function::<fn(i64) -> i64>(path).map(|f| f.call(*id as i64)).map_err(|_| ()),
+            };
+            probes.insert(*id, match r { Ok(t) => Out::Ok(t), Err(()) => Out::Err("get_function".into()) });
         }
         let mut exports = BTreeMap::new();
         for (path, sel) in &ask.gets {
@@ -1029,10 +1037,11 @@ impl<'a> Gen<'a> {
         }
         let nsig = self.rng.below(3) as usize;
         for _ in 0..nsig {
-            let (path, form) = self.item_path(m, PKind::Ty);
+            let kind = *self.rng.pick(&[PKind::Ty, PKind::Ty, PKind::Const, PKind::Fn]);
+            let (path, form) = self.item_path(m, kind);
             let id = self.nprobes;
             self.nprobes += 1;
-            items.push(ItemD::SigProbe { id, path, form });
+            items.push(ItemD::SigProbe { id, kind, path, form });
         }
         // declarations and imports in any order
         for i in (1..items.len()).rev() {
@@ -1282,7 +1291,10 @@ fn fixed_cases() -> Vec<Program> {
                 cx(c0, 900, Block { imports: vec![], stmts: vec![
                     pr(0, PKind::Fn, &[ff]), pr(1, PKind::Fn, &[gg]), pr(2, PKind::Const, &[kk]), pr(3, PKind::Ty, &[tt]),
                 ] }),
-                ItemD::SigProbe { id: 4, path: vec![tt], form: "fixed" },
+                ItemD::SigProbe { id: 4, kind: PKind::Ty, path: vec![tt], form: "fixed" },
+                ItemD::SigProbe { id: 5, kind: PKind::Ty, path: vec![aa, tt], form: "fixed" },
+                ItemD::SigProbe { id: 6, kind: PKind::Fn, path: vec![aa, ff], form: "fixed" },
+                ItemD::SigProbe { id: 7, kind: PKind::Const, path: vec![aa, bb, kk], form: "fixed" },
             ] },
             ModD { ident: aa, parent: Some(0), items: vec![f(ff, 102), ItemD::Ty { name: tt, tag: 112 }] },
             ModD { ident: bb, parent: Some(1), items: vec![f(gg, 103), ItemD::Const { name: kk, tag: 113 }] },
@@ -1487,8 +1499,11 @@ fn probe_infos(p: &Program) -> Sites {
                 ItemD::Const { name, tag } | ItemD::Ty { name, tag } => {
                     decls.entry((mn[mi].clone(), p.names[*name].clone())).or_insert(*tag);
                 }
-                ItemD::SigProbe { id, path, form } => {
-                    out.insert(*id, ProbeInfo { ctx: String::new(), kind: PKind::Ty, form, depth: 99, path: path.clone(), scope: mn[mi].clone(), seq: 0 });
+                ItemD::SigProbe { id, kind, path, form } => {
+                    // value probes are observed through the getter `sp<id>()`
+                    let getter = format!("{}.sp{id}", mn[mi]);
+                    let ctx = if *kind == PKind::Ty { String::new() } else { format!("!{}", getter.strip_prefix("pkg.").unwrap_or(&getter)) };
+                    out.insert(*id, ProbeInfo { ctx, kind: *kind, form, depth: 99, path: path.clone(), scope: mn[mi].clone(), seq: 0 });
                 }
                 ItemD::Imports(_) => {}
             }
@@ -1576,7 +1591,8 @@ fn canon_graph(sc: &[DScope], names: &[String]) -> std::collections::BTreeSet<St
         imps.sort();
         let mut decls: Vec<String> = s.decls.iter().filter(|(id, _, _)| names.iter().any(|n| n == id)).map(|(id, k, _)| format!("{id}:{k}")).collect();
         decls.sort();
-        if name.rsplit('.').next().is_some_and(|l| l.starts_with("sp")) && imps.is_empty() && decls.is_empty() {
+        // scopes of the items that carry module-level references (`sp<id>`, `cp<id>`, `rp<id>`)
+        if name.rsplit('.').next().is_some_and(|l| l.starts_with("sp") || l.starts_with("cp") || l.starts_with("rp")) && imps.is_empty() && decls.is_empty() {
             continue;
         }
         out.insert(format!("{name}|{parent}|{}|{}", imps.join(","), decls.join(",")));
